@@ -27,6 +27,7 @@ RULE = (
     "Ridge(alpha), scaler default | user, n_local_points 2..n_train; ~20 relations per case. non-trivial = X and Y of "
     "different width or explicit indices; distinct by data hash."
 )
+RULE = RULE + " " + 'Every case with >= 4 training points also evaluates LRE with a scale-only user scaler (all and some training points as neighbours) against the explicit centred local ridge; the last case of a run is one LRE call on 4200 x 4000 points (tight group far from the bulk).'
 ASSUMPTIONS = [
     "planted-map identities use cond(X) <= 1e3",
     "rotation of the target space is judged only with rotation-invariant model selection (single alpha or MSE scoring), as the property states",
